@@ -362,6 +362,46 @@ struct Live {
     len: usize,
     base: usize,
     wrote: bool,
+    /// Inaccessible guard pages the harness placed directly before / after the mapping (if those addresses
+    /// were free): a drop that unmaps more than the map hits them instead of unrelated memory, and their
+    /// disappearance is a deterministic, replayable observation.
+    guard_before: Option<usize>,
+    guard_after: Option<usize>,
+}
+
+fn place_guard(addr: usize, page: usize) -> Option<usize> {
+    if addr == 0 {
+        return None;
+    }
+    let p = unsafe { libc::mmap(addr as *mut libc::c_void, page, libc::PROT_NONE, libc::MAP_PRIVATE | libc::MAP_ANONYMOUS | libc::MAP_FIXED_NOREPLACE, -1, 0) };
+    if p == libc::MAP_FAILED {
+        None
+    } else if p as usize != addr {
+        unsafe { libc::munmap(p, page) };
+        None
+    } else {
+        Some(addr)
+    }
+}
+
+fn is_mapped(addr: usize, page: usize) -> bool {
+    let mut v = [0u8; 1];
+    unsafe { libc::mincore(addr as *mut libc::c_void, page, v.as_mut_ptr()) == 0 }
+}
+
+/// Returns a description if a guard page is gone; removes the guards that remain.
+fn check_and_remove_guards(before: Option<usize>, after: Option<usize>, page: usize) -> Option<String> {
+    let mut problem = None;
+    for (g, what) in [(before, "before"), (after, "after")] {
+        if let Some(addr) = g {
+            if is_mapped(addr, page) {
+                unsafe { libc::munmap(addr as *mut libc::c_void, page) };
+            } else {
+                problem = Some(format!("the page directly {} the mapping (a guard page at {:#x}) was unmapped by the drop", what, addr));
+            }
+        }
+    }
+    problem
 }
 
 impl Live {
@@ -562,7 +602,13 @@ fn step(ctx: &mut Ctx, w: &mut World, live: &mut Vec<Live>, acts: &[Act], k: usi
                 if live.iter().any(|l| l.f == file) {
                     ctx.count("second_live_map_of_the_same_file", 1);
                 }
-                live.push(Live { map, f: file, mode, len: want_len, base, wrote: false });
+                let (glo, ghi) = (base, base + round_up(want_len * 8, page));
+                let guard_before = if want_len > 0 && glo >= page { place_guard(glo - page, page) } else { None };
+                let guard_after = if want_len > 0 { place_guard(ghi, page) } else { None };
+                if guard_before.is_some() || guard_after.is_some() {
+                    ctx.count("maps_with_guard_pages", 1);
+                }
+                live.push(Live { map, f: file, mode, len: want_len, base, wrote: false, guard_before, guard_after });
                 ctx.count_max("max_live_maps", live.len() as u64);
             }
             if live.is_empty() && !vmas.is_empty() {
@@ -579,8 +625,13 @@ fn step(ctx: &mut Ctx, w: &mut World, live: &mut Vec<Live>, acts: &[Act], k: usi
             let class = file.class(page);
             let sig = || format!("MemoryMap.drop[{}]", class);
             let map = l.map;
+            let (gb, ga) = (l.guard_before, l.guard_after);
             if let Err(msg) = guard(move || drop(map)) {
                 ctx.panic_violation(&sig(), &msg, None, case);
+                return false;
+            }
+            if let Some(msg) = check_and_remove_guards(gb, ga, page) {
+                ctx.require(sig, false, case, || json!({"observed": msg, "expected": "the drop unmaps exactly the map", "file_bytes": file.size(), "mode": mode}));
                 return false;
             }
             let vmas = w.read_maps();
@@ -714,7 +765,9 @@ fn run_history(ctx: &mut Ctx, w: &mut World, acts: &[Act]) {
     // mapped, restore the files.
     for l in live.drain(..) {
         let map = l.map;
+        let (gb, ga) = (l.guard_before, l.guard_after);
         let _ = guard(move || drop(map));
+        let _ = check_and_remove_guards(gb, ga, w.page);
     }
     let vmas = w.read_maps();
     if !vmas.is_empty() {
